@@ -104,6 +104,7 @@ type Case struct {
 	SizeOff int      `json:"sizeoff,omitempty"` // sizemismatch: Header.Size - len(Payload)
 	Fail    string   `json:"fail,omitempty"`    // afterfailure: eof | error | partial-eof | partial-error
 	Repeat  int      `json:"repeat,omitempty"`  // afterfailure: how often the failing write is attempted
+	Reuse   bool     `json:"reuse,omitempty"`   // roundtrip, invalid: every message is read into the same Message variable
 }
 
 var u32 = rapid.OneOf(rapid.SampledFrom([]uint32{0, 1, 2, 0x7fffffff, 0x80000000, 0xffffffff, 0x42dead42, 0x42adde42}), rapid.Uint32())
@@ -167,6 +168,7 @@ func genCase(t *rapid.T) Case {
 		for i := 0; i < n; i++ {
 			c.Msgs = append(c.Msgs, genMsg(t, big && i == 0))
 		}
+		c.Reuse = rapid.Bool().Draw(t, "reuse")
 	case "invalid":
 		n := rapid.IntRange(0, 2).Draw(t, "n")
 		for i := 0; i < n; i++ {
@@ -193,6 +195,7 @@ func genCase(t *rapid.T) Case {
 			inv.Size = rapid.SampledFrom([]uint32{qnet.MaxPayloadSize + 1, qnet.MaxPayloadSize + 2, 1 << 31, 0xffffffff, 0x7fffffff, 11 * 1024 * 1024}).Draw(t, "badsize")
 		}
 		c.Invalid = inv
+		c.Reuse = rapid.Bool().Draw(t, "reuse")
 	case "shortwrite":
 		c.Msgs = []Msg{genMsg(t, false)}
 		c.Limit = rapid.SampledFrom([]int{1, 2, 3, 4, 7, 27, 28, 29, 100}).Draw(t, "limit")
@@ -291,10 +294,21 @@ func checkRoundTrip(c Case) error {
 	r := hio.NewFragReader(stream, c.Plan.Chunks, c.Plan.EOFWith)
 	consumed := 0
 	maxLen := 0
+	// a receive loop may read every message into one variable (Reuse), or keep
+	// the messages it read (then what it kept must stay what it was: kept)
+	var shared qnet.Message
+	var kept []qnet.Message
 	for i, m := range c.Msgs {
-		var got qnet.Message
+		var fresh qnet.Message
+		got := &fresh
+		if c.Reuse {
+			got = &shared
+		}
 		if err := got.Read(r); err != nil {
 			return vt.Violationf("C01:read-error", "message %d/%d: Read failed: %v", i, len(c.Msgs), err)
+		}
+		if !c.Reuse {
+			kept = append(kept, fresh)
 		}
 		p := m.payload()
 		if len(p) > maxLen {
@@ -307,15 +321,27 @@ func checkRoundTrip(c Case) error {
 			return vt.Violationf("C01:header-mismatch", "message %d: header read back %+v, written %+v", i, h, m)
 		}
 		if !bytes.Equal(got.Payload, p) {
-			return vt.Violationf("C01:payload-mismatch", "message %d: payload differs (len %d vs %d)", i, len(got.Payload), len(p))
+			how := ""
+			if c.Reuse {
+				how = " (read into the variable which held the previous message)"
+			}
+			return vt.Violationf("C01:payload-mismatch", "message %d: payload differs (len %d vs %d)%s", i, len(got.Payload), len(p), how)
 		}
 		if r.Pos != consumed {
 			return vt.Violationf("C01:consumed", "after message %d the reader was asked for %d bytes, expected exactly %d", i, r.Pos, consumed)
 		}
 	}
 	var extra qnet.Message
+	if c.Reuse {
+		extra = shared
+	}
 	if err := extra.Read(r); err != io.EOF {
 		return vt.Violationf("C01:eof", "read after the last message returned %v, want io.EOF itself", err)
+	}
+	for i, k := range kept {
+		if !bytes.Equal(k.Payload, c.Msgs[i].payload()) || k.Header.ID != c.Msgs[i].ID {
+			return vt.Violationf("C01:kept-message-changed", "message %d of %d, kept by the reader, changed while the later ones were read", i, len(c.Msgs))
+		}
 	}
 	nontrivial := (len(c.Msgs) >= 2 || maxLen > 0) && r.Splits > 0
 	labels := []string{"kind=roundtrip", fmt.Sprintf("msgs=%d", len(c.Msgs)), lenClass(maxLen)}
@@ -324,6 +350,9 @@ func checkRoundTrip(c Case) error {
 	}
 	if c.Plan.EOFWith {
 		labels = append(labels, "eof-with-data")
+	}
+	if c.Reuse && len(c.Msgs) > 1 {
+		labels = append(labels, "same-variable")
 	}
 	vt.Case(nontrivial, key(c), labels...)
 	if nontrivial {
@@ -342,14 +371,19 @@ func checkInvalid(c Case) error {
 	stream = append(stream, hdr...)
 	stream = append(stream, prf(99, inv.Trail)...)
 	r := hio.NewFragReader(stream, c.Plan.Chunks, c.Plan.EOFWith)
+	var got qnet.Message
 	for i := range c.Msgs {
-		var got qnet.Message
+		if !c.Reuse {
+			got = qnet.Message{}
+		}
 		if err := got.Read(r); err != nil {
 			return vt.Violationf("C01:read-error", "valid message %d before the invalid header: %v", i, err)
 		}
 	}
 	before := r.Pos
-	var got qnet.Message
+	if !c.Reuse {
+		got = qnet.Message{}
+	}
 	err = got.Read(r)
 	if err == nil {
 		return vt.Violationf("C01:invalid-accepted:"+inv.Field, "header with bad %s (%+v) was accepted", inv.Field, *inv)
